@@ -24,7 +24,7 @@ import (
 
 func TestMain(m *testing.M) {
 	harness.Property("C19",
-		"families: component (a tuple of scheme from {ax25, ax25+agwpe, ardop, telnet, serial-tnc, x-y.z1}; optional non-empty user and optional password, both any UTF-8 text, percent-encoded byte by byte outside [A-Za-z0-9._~-]; host empty / name / name:port / [v6]:port over [A-Za-z0-9._-] in mixed case; 0..8 digis and a target over [A-Za-z0-9-]{1,9} in mixed case; 0..3 query parameters with keys [a-z_]{1,8} other than 'host' and arbitrary UTF-8 values percent-encoded the same way; optional non-empty host= parameter at any position) rendered as scheme://[user[:password]@]host/digi.../target[?query], then parsed and - if accepted - dialled with a recording stub registered (or not) for the scheme; raw (arbitrary strings and byte strings); mutated (1..3 byte edits/truncations of a rendered URL with URL-special and control bytes); dispatch (sequences of 1..14 register/unregister/dial calls on 3 schemes - one lower case, one upper case, one mixed case, each always spelled the same way - against a map model); registry (2..6 goroutines x 1..16 register/unregister/dial calls on 3 schemes with generated yield pacing, binary built with -race); inflight (1..8 register/unregister/dial calls made while a dial of a fourth scheme is in progress, from a second goroutine or from inside that dialer, against the map model; every call must return while the first dial is held). Non-trivial: component cases with >= 1 digi, userinfo or query; raw/mutated strings that net/url accepts (ParseURL's own logic ran); dispatch cases with >= 1 dial; registry cases where two different goroutines dial and write the same scheme; every inflight case. Distinct by hash(raw string, dial mode) / hash(op lists).",
+		"families: component (a tuple of scheme from {ax25, ax25+agwpe, ardop, telnet, serial-tnc, x-y.z1}; optional non-empty user and optional password, both any UTF-8 text, percent-encoded byte by byte outside [A-Za-z0-9._~-]; host empty / name / name:port / [v6]:port over [A-Za-z0-9._-] in mixed case; 0..8 digis and a target over [A-Za-z0-9-]{1,9} in mixed case; 0..3 query parameters with keys [a-z_]{1,8} other than 'host' and arbitrary UTF-8 values percent-encoded the same way; optional non-empty host= parameter at any position) rendered as scheme://[user[:password]@]host/digi.../target[?query], then parsed and - if accepted - dialled with a recording stub registered (or not) for the scheme; in half of the cases the caller first modifies the values returned by earlier ParseURL calls (of a query-less URL of the same scheme and of this very URL: parameters set and appended, digis changed, fields overwritten) and the URL is parsed again; raw (arbitrary strings and byte strings); mutated (1..3 byte edits/truncations of a rendered URL with URL-special and control bytes); dispatch (sequences of 1..14 register/unregister/dial calls on 3 schemes - one lower case, one upper case, one mixed case, each always spelled the same way - against a map model); registry (2..6 goroutines x 1..16 register/unregister/dial calls on 3 schemes with generated yield pacing, binary built with -race); inflight (1..8 register/unregister/dial calls made while a dial of a fourth scheme is in progress, from a second goroutine or from inside that dialer, against the map model; every call must return while the first dial is held). Non-trivial: component cases with >= 1 digi, userinfo or query; raw/mutated strings that net/url accepts (ParseURL's own logic ran); dispatch cases with >= 1 dial; registry cases where two different goroutines dial and write the same scheme; every inflight case. Distinct by hash(raw string, dial mode) / hash(op lists).",
 		"the component domain is restricted to characters whose treatment by net/url is documented and unambiguous: schemes lower case (net/url lower-cases schemes), hosts without escapes, zones or empty ports (net/url keeps the host's case), user/password/query values fully percent-encoded (net/url decodes %XX in all three), no fragment, no empty path segment",
 		"when a tuple has both a target shorter than 3 characters and digis on ardop/telnet, either refusal is accepted; whether a URL value accompanies ErrDigisUnsupported is not constrained; whether the host= parameter itself stays in Params is not constrained",
 		"registry oracle: operations are stamped with a shared atomic counter before the call and after the return; a dial result must be explainable by a registration (or unregistration/initial state) that began before the dial returned and was not certainly overwritten before the dial began - a necessary condition of linearisability that a mutex-protected map always meets; pacing only influences which interleavings are seen, never the verdict",
@@ -59,6 +59,31 @@ type Comp struct {
 	// both interfaces registered through RegisterDialer, 4 nothing registered for the scheme
 	// (a decoy is registered for another scheme).
 	Dial int `json:"dial"`
+	// Used: results of ParseURL are used the way callers use them - an earlier result (of a URL without a query) and
+	// this URL's own first result get parameters set, digis appended and fields overwritten - and the URL is parsed
+	// again afterwards; every parse must yield exactly the components of its own string
+	Used bool `json:"used,omitempty"`
+}
+
+// useResult modifies a parsed URL the way a caller may (it owns the value it was handed).
+func useResult(u *transport.URL) {
+	if u == nil {
+		return
+	}
+	if u.Params != nil {
+		u.Params.Set("host", "set-by-caller")
+		u.Params.Add("opt", "1")
+		for k := range u.Params {
+			if k != "host" && k != "opt" {
+				u.Params[k] = append(u.Params[k], "appended-by-caller")
+			}
+		}
+	}
+	if len(u.Digis) > 0 {
+		u.Digis[0] = "CHANGED"
+	}
+	u.Digis = append(u.Digis, "ADDED")
+	u.Target, u.Host = "CHANGED", "changed-by-caller"
 }
 
 const (
@@ -313,6 +338,24 @@ func sameStrings(a, b []string) bool {
 
 func judgeComponent(c Case, o *outcome) (sig, msg string) {
 	k := c.Comp
+	if !k.Used {
+		return judgeComponentOnce(c, o, k.Dial)
+	}
+	aux, _ := transport.ParseURL(k.Scheme + ":///EARLIER")
+	useResult(aux)
+	if sig, msg = judgeComponentOnce(c, o, 0); sig != "" {
+		return
+	}
+	first, _ := transport.ParseURL(string(c.Raw))
+	useResult(first)
+	if sig, msg = judgeComponentOnce(c, o, k.Dial); sig != "" {
+		return "history:" + sig, "after the caller modified the URL values returned by earlier ParseURL calls: " + msg
+	}
+	return
+}
+
+func judgeComponentOnce(c Case, o *outcome, dial int) (sig, msg string) {
+	k := c.Comp
 	raw := string(c.Raw)
 	u, err := transport.ParseURL(raw)
 	short := len(k.Target) < 3
@@ -388,7 +431,7 @@ func judgeComponent(c Case, o *outcome) (sig, msg string) {
 			return "params", fmt.Sprintf("ParseURL(%q).Params has the unexpected key %q = %q", raw, key, u.Params[key])
 		}
 	}
-	if k.Dial == 0 {
+	if dial == 0 {
 		return "", ""
 	}
 
@@ -397,7 +440,7 @@ func judgeComponent(c Case, o *outcome) (sig, msg string) {
 	defer clearRegistry()
 	rec := &recorder{}
 	const id = 2
-	switch k.Dial {
+	switch dial {
 	case 1:
 		register(opRegPlain, k.Scheme, id, rec)
 	case 2:
@@ -409,20 +452,20 @@ func judgeComponent(c Case, o *outcome) (sig, msg string) {
 	token := &struct{ int }{7}
 	ctx := context.WithValue(context.Background(), ctxKey{}, token)
 	var conn net.Conn
-	if k.Dial == 2 || k.Dial == 3 {
+	if dial == 2 || dial == 3 {
 		conn, err = transport.DialURLContext(ctx, u)
 	} else {
 		conn, err = transport.DialURL(u)
 	}
 	got := resultID(conn, err)
-	if k.Dial == 4 {
+	if dial == 4 {
 		if got != -1 || len(rec.hits) != 0 {
 			return "dispatch-unregistered", fmt.Sprintf("DialURL(%q) with no dialer for %q = (%v, %v), %d stub calls; want ErrMissingDialer", raw, k.Scheme, conn, err, len(rec.hits))
 		}
 		return "", ""
 	}
 	wantID := id
-	if k.Dial == 2 {
+	if dial == 2 {
 		wantID = id + 1
 	}
 	if got != wantID || len(rec.hits) != 1 || rec.hits[0].id != wantID {
@@ -431,7 +474,7 @@ func judgeComponent(c Case, o *outcome) (sig, msg string) {
 	if rec.hits[0].u != u {
 		return "dispatch-url", fmt.Sprintf("DialURL(%q): the dialer received a different *URL", raw)
 	}
-	if rec.hits[0].viaCtx && (k.Dial == 2 || k.Dial == 3) && rec.hits[0].token != any(token) {
+	if rec.hits[0].viaCtx && (dial == 2 || dial == 3) && rec.hits[0].token != any(token) {
 		return "dispatch-context", fmt.Sprintf("DialURLContext(%q): the ContextDialer did not receive the caller's context", raw)
 	}
 	return "", ""
@@ -842,6 +885,7 @@ func genComp(t *rapid.T) *Comp {
 		k.HostPos = rapid.IntRange(0, len(k.Params)).Draw(t, "host_pos")
 	}
 	k.Dial = rapid.IntRange(0, 4).Draw(t, "dial")
+	k.Used = rapid.Bool().Draw(t, "used")
 	return k
 }
 
@@ -932,8 +976,11 @@ func account(c Case, o outcome) {
 	case "component":
 		k := c.Comp
 		harness.Label("component:" + o.class)
+		if k.Used {
+			harness.Label("component:earlier-results-modified-by-caller")
+		}
 		if len(k.Digis) > 0 || k.HasUser || len(k.Params) > 0 || k.HostParam != "" {
-			harness.NonTrivial(harness.Hash(c.Raw, k.Dial))
+			harness.NonTrivial(harness.Hash(c.Raw, k.Dial, k.Used))
 			harness.Label("nontrivial")
 		}
 		switch n := len(k.Digis); {
